@@ -25,6 +25,7 @@ fn main() {
         "list" => {
             for f in verif::props::all() {
                 let p = f();
+                if p.subs.is_empty() { continue; }
                 println!("{} {}", p.id, p.subs.iter().map(|s| s.name).collect::<Vec<_>>().join(","));
             }
         }
